@@ -3,6 +3,11 @@
 import json
 
 CLAIMED = {
+    "C07": {
+        "text": "Proof: Lean theorems give, for arbitrary operand expressions, the exact sequencing of a call node as an equation between computations: receiver first, then the arguments left to right, each exactly once, then the host call logged with exactly those values (global and receiver style, any arity); strict operators evaluate left then right once; list elements and map key/value pairs in source order. The model is tied to the code by programs in which every leaf and call is a tagged logging host function, comparing the ordered call log with the model and with an independent left-to-right reference interpreter, and by nested call chains to depth 40 whose call count must stay linear.",
+        "technique": "Lean 4 equational theorems about the monadic evaluator (monad laws, induction over signatures) + differential correspondence on ordered host-call logs",
+        "design_ref": "DESIGN.md section 5, C07",
+    },
     "C06": {
         "text": "Proof: for arbitrary operand expressions and arbitrary evaluation states the Lean theorems show that `a && b` with a false, `a || b` with a true and `c ? x : y` leave the state (host-call log, step counter) exactly as the needed operands left it, so nothing of the skipped operand - error, panic or host call - happens, at any depth and in macro bodies; the model is tied to the code by enumerating operator trees over erroring/logging operands and comparing outcome and ordered call log with the model and with an independent reference interpreter of the short-circuit rules.",
         "technique": "Lean 4 theorems about the monadic evaluator (state = log + steps) by unfolding callNode + differential correspondence with call-logging host functions",
